@@ -49,6 +49,7 @@ def build_plan(choice: Choice, tier):
         call["input_type"] = ["list", "tuple", "iterator", "range-like", "list", "deque", "int-only-sequence"][d(7, "input.type")]
         # 'exact': the caller takes exactly len(data) results (zip / islice style) and never asks for more
         call["consume"] = "exact" if d(4, "consume") == 3 else "full"
+        call["item_type"] = "list" if d(5, "item.type") == 4 else "tuple"
         calls.append(call)
     p["calls"] = calls
     # FunctorMap: the generators of all calls may be created first and consumed one after the other afterwards
@@ -93,7 +94,7 @@ def scenario(k: Kernel, plan, obs):
                 for i in range(call["n"]):
                     if i % 2:
                         k.switch("input.pause")
-                    yield (c, i)
+                    yield ([c, i] if call.get("item_type") == "list" else (c, i))
             return gen()
         from props.poolsim import typed_input
         return typed_input(c, call)
